@@ -239,7 +239,7 @@ func checkLoads(c Case, ctx *vcommon.Ctx) *vcommon.Failure {
 		ctx.Class("skip/parse-error")
 		return nil
 	}
-	fp0 := fingerprint(p)
+	sn0 := snapshot(p)
 	if classifyRoutes(c, ctx) || generalNonTrivial(c) {
 		ctx.NonTrivial(c.prelude(0) + "\x00" + c.Src)
 		ctx.Note(c.Src)
@@ -297,8 +297,8 @@ func checkLoads(c Case, ctx *vcommon.Ctx) *vcommon.Failure {
 		if got.bad != "" {
 			return vcommon.Failf("literal/re-evaluated/same-program/"+fam, "load %d of the same Program in one runtime: %s\nprelude:\n%s\nprogram:\n%s", i+1, got.bad, c.prelude(0), c.Src)
 		}
-		if fp := fingerprint(p); fp != fp0 {
-			return vcommon.Failf("fingerprint/same-runtime/"+fam, "sealed fingerprint changed from %x to %x by load %d of %d in one runtime\nprogram:\n%s", fp0, fp, i+1, c.K, c.Src)
+		if kind, what := sn0.changed(p, c.Src); kind != "" {
+			return vcommon.Failf(kind+"/same-runtime/"+fam, "the parsed Program was changed by load %d of %d in one runtime: %s\nprogram:\n%s", i+1, c.K, what, c.Src)
 		}
 		if got.s != ref[i].s {
 			return mismatch("reload/same-runtime/"+fam, "load %d of the same Program in one runtime differs from load %d of a fresh parse: %s\nprogram:\n%s", i+1, i+1, firstDiff(got.s, ref[i].s), c.Src)
@@ -311,8 +311,8 @@ func checkLoads(c Case, ctx *vcommon.Ctx) *vcommon.Failure {
 			return f
 		}
 		got := loadOnce(rt, p)
-		if fp := fingerprint(p); fp != fp0 {
-			return vcommon.Failf("fingerprint/fresh-runtime/"+fam, "sealed fingerprint changed from %x to %x by a load in fresh runtime %d\nprogram:\n%s", fp0, fp, i+1, c.Src)
+		if kind, what := sn0.changed(p, c.Src); kind != "" {
+			return vcommon.Failf(kind+"/fresh-runtime/"+fam, "the parsed Program was changed by a load in fresh runtime %d: %s\nprogram:\n%s", i+1, what, c.Src)
 		}
 		if got.s != ref[0].s {
 			return mismatch("reload/fresh-runtime/"+fam, "loading the used Program in fresh runtime %d differs from loading a fresh parse in a fresh runtime: %s\nprogram:\n%s", i+1, firstDiff(got.s, ref[0].s), c.Src)
@@ -404,18 +404,18 @@ func checkConcurrent(c Case, ctx *vcommon.Ctx) *vcommon.Failure {
 		ctx.Class("skip/parse-error")
 		return nil
 	}
-	fp0 := fingerprint(p)
+	sn0 := snapshot(p)
 	nv := len(c.Preludes)
 	// shared prelude Programs: every goroutine of a variant loads the same one
 	preludes := make([]lisp.Program, nv)
-	pfp := make([]uint64, nv)
+	pfp := make([]snap, nv)
 	for i := range preludes {
 		pp, err := parse(c.Preludes[i])
 		if err != nil {
 			return vcommon.Failf("harness/prelude-parse", "prelude does not parse: %v", err)
 		}
 		preludes[i] = pp
-		pfp[i] = fingerprint(pp)
+		pfp[i] = snapshot(pp)
 	}
 	if len(c.Routes) == 0 {
 		ctx.Class("general-program")
@@ -489,12 +489,12 @@ func checkConcurrent(c Case, ctx *vcommon.Ctx) *vcommon.Failure {
 	close(start)
 	wg.Wait()
 
-	if fp := fingerprint(p); fp != fp0 {
-		return vcommon.Failf("fingerprint/concurrent/"+fam, "sealed fingerprint changed from %x to %x after %d goroutines loaded the Program %d times each\nprogram:\n%s", fp0, fp, G, K, c.Src)
+	if kind, what := sn0.changed(p, c.Src); kind != "" {
+		return vcommon.Failf(kind+"/concurrent/"+fam, "the parsed Program was changed while %d goroutines loaded it %d times each: %s\nprogram:\n%s", G, K, what, c.Src)
 	}
 	for i := range preludes {
-		if fp := fingerprint(preludes[i]); fp != pfp[i] {
-			return vcommon.Failf("fingerprint/concurrent-prelude", "sealed fingerprint of shared prelude %d changed\n%s", i, c.Preludes[i])
+		if kind, what := pfp[i].changed(preludes[i], c.Preludes[i]); kind != "" {
+			return vcommon.Failf(kind+"/concurrent-prelude", "shared prelude Program %d was changed: %s\n%s", i, what, c.Preludes[i])
 		}
 	}
 	for g := 0; g < G; g++ {
@@ -613,7 +613,10 @@ func (c LitCase) defSrc() string {
 	body := gen.Render(c.Lit)
 	// (mlit): a macro, defined by this EARLIER load, whose quasiquote template
 	// is the same literal; every evaluation of a call site must expand afresh
-	mlit := "(defmacro mlit () (quasiquote (quote " + body + ")))\n"
+	mlit := "(defmacro mlit () (quasiquote (quote " + body + ")))\n" +
+		"(defmacro tlit () ''" + body + ")\n" +
+		"(defmacro olit (&optional x) (if x x ''" + body + "))\n" +
+		"(defmacro ilit (x) x)\n"
 	switch c.Shape {
 	case 0:
 		return "(defun lit () '" + body + ")\n" + mlit
@@ -649,7 +652,7 @@ func checkLiteral(c LitCase, ctx *vcommon.Ctx) *vcommon.Failure {
 		ctx.NonTrivial(c.defSrc() + c.Mut)
 		ctx.Note(c.defSrc() + c.Mut)
 	}
-	fps := []uint64{fingerprint(def), fingerprint(get), fingerprint(mut)}
+	fps := []snap{snapshot(def), snapshot(get), snapshot(mut)}
 	rt := vcommon.NewRuntime(defaultLimits.cfg())
 	if t := loadOnce(rt, def); t.isErr {
 		return vcommon.Failf("harness/literal-def", "definition fails: %s", t.s)
@@ -716,8 +719,8 @@ func checkLiteral(c LitCase, ctx *vcommon.Ctx) *vcommon.Failure {
 		return f
 	}
 	for i, p := range []lisp.Program{def, get, mut} {
-		if fp := fingerprint(p); fp != fps[i] {
-			return vcommon.Failf("fingerprint/literal/"+fam, "sealed fingerprint of program %d changed\n%s%s", i, c.defSrc(), c.Mut)
+		if kind, what := fps[i].changed(p, []string{c.defSrc(), "(lit)", c.Mut}[i]); kind != "" {
+			return vcommon.Failf(kind+"/literal/"+fam, "parsed program %d was changed: %s\n%s%s", i, what, c.defSrc(), c.Mut)
 		}
 	}
 	return nil
